@@ -4,6 +4,7 @@ package harness
 
 import (
 	"fmt"
+	"math"
 	"sort"
 	"testing"
 	"testing/synctest"
@@ -47,6 +48,11 @@ func genC13(t *rapid.T) c13Case {
 			c.Stack.Evict = rapid.Bool().Draw(t, "evict")
 		}
 		bound = int64(c.Stack.effTimeout())
+		if rapid.IntRange(0, 7).Draw(t, "forever") == 0 {
+			// "wait for as long as it takes": timeouts of centuries up to the largest duration there is; only a
+			// release (or a cancellation with eviction) ends the wait
+			c.Stack.TimeoutNs, bound = rapid.SampledFrom([]int64{math.MaxInt64, math.MaxInt64 - 1, math.MaxInt64 / 2, int64(250 * 365 * 24 * time.Hour)}).Draw(t, "foreverNs"), -1
+		}
 		if c.Stack.Kind == "queue" && rapid.IntRange(0, 5).Draw(t, "noTimeout") == 0 {
 			// a negative backlog timeout arms no timer at all: only cancellation (with eviction) bounds the wait
 			c.Stack.TimeoutNs, bound = rapid.SampledFrom([]int64{-1, -1_000_000_000}).Draw(t, "negTimeout"), -1
@@ -181,7 +187,8 @@ func runC13InBubble(c c13Case) (out kit.Outcome) {
 	}
 	// let every bound pass
 	horizon := A + time.Duration(maxI64(int64(c.Stack.effTimeout()), 0)) + time.Duration(maxI64(c.Stack.DeadlineNs, 0)) + 2*time.Second
-	if c.Stack.DeadlineFar > 0 {
+	foreverTimeout := c.Stack.effTimeout() > 100*365*24*time.Hour
+	if c.Stack.DeadlineFar > 0 || foreverTimeout {
 		horizon = A + 12*time.Second
 	}
 	if d := horizon - w.now(); d > 0 {
@@ -220,7 +227,7 @@ func runC13InBubble(c c13Case) (out kit.Outcome) {
 	cancelApplies := kind == "blocking" || kind == "deadline" || (kind == "queue" && c.Stack.Evict)
 	switch kind {
 	case "queue", "fifo-dep", "lifo-dep", "pool":
-		if c.Stack.TimeoutNs >= 0 {
+		if c.Stack.TimeoutNs >= 0 && !foreverTimeout {
 			setBound(A+c.Stack.effTimeout(), "backlog timeout")
 		}
 	case "deadline":
